@@ -39,67 +39,157 @@ partial def jeq : JVal → JVal → Bool
   | .obj a, .obj b => a.length == b.length && (a.zip b).all (fun p => p.1.1 == p.2.1 && jeq p.1.2 p.2.2)
   | _, _ => false
 
-/-- is the tagged document of the form the model's writer produces (`writeDual`, `writeDual2`, `writeCurveF64`
-of Model/Load.lean, the forms the C16 document theorems quantify over)?  The components are read off the tree,
-the writer is applied to them, and the result must be the tree itself. -/
+/-! Recognisers: is a tree of the form the model's writers produce (the forms the C16 document theorems quantify
+over)?  The components are read off the tree, the writer is applied to them, and the result must be the tree. -/
+
+def isWrittenDual (j : JVal) : Bool :=
+  match j with
+  | .obj [("real", .num re), ("vars", .arr vs), ("dual", .obj [_, _, ("data", .arr xs)])] =>
+    match vs.mapM asStr, xs.mapM asF64 with
+    | some names, some d => jeq (writeDual re names d) j
+    | _, _ => false
+  | _ => false
+
+def isWrittenDual2 (j : JVal) : Bool :=
+  match j with
+  | .obj [("real", .num re), ("vars", .arr vs), ("dual", .obj [_, _, ("data", .arr xs)]),
+          ("dual2", .obj [_, _, ("data", .arr hs)])] =>
+    match vs.mapM asStr, xs.mapM asF64, hs.mapM asF64 with
+    | some names, some d, some h => jeq (writeDual2 re names d h) j
+    | _, _, _ => false
+  | _ => false
+
+/-- a `Number` document: `writeNumber` of a float, a written Dual or a written Dual2 -/
+def isWrittenNumber (j : JVal) : Bool :=
+  match j with
+  | .obj [("F64", .num _)] => true
+  | .obj [("Dual", d)] => isWrittenDual d
+  | .obj [("Dual2", d)] => isWrittenDual2 d
+  | _ => false
+
+def isWrittenCal (j : JVal) : Bool :=
+  match j with
+  | .obj [("holidays", .arr hs), ("week_mask", .arr ws)] =>
+    match hs.mapM asStr, ws.mapM asStr with
+    | some h, some w => jeq (writeCal h w) j && (h.mapM parseDateTime).isSome && (w.mapM parseWeekday).isSome
+    | _, _ => false
+  | _ => false
+
+def calDocOf (j : JVal) : Option (List String × List String) :=
+  match j with
+  | .obj [("holidays", .arr hs), ("week_mask", .arr ws)] =>
+    match hs.mapM asStr, ws.mapM asStr with
+    | some h, some w => some (h, w)
+    | _, _ => none
+  | _ => none
+
+def isWrittenUnion (j : JVal) : Bool :=
+  match j with
+  | .obj [("calendars", .arr cs), ("settlement_calendars", sj)] =>
+    let ss : Option (Option (List JVal)) := match sj with
+      | .null => some none
+      | .arr l => some (some l)
+      | _ => none
+    match cs.mapM calDocOf, ss with
+    | some cals, some none => cs.all isWrittenCal && jeq (writeUnionCal cals none) j
+    | some cals, some (some l) =>
+      match l.mapM calDocOf with
+      | some sl => cs.all isWrittenCal && l.all isWrittenCal && jeq (writeUnionCal cals (some sl)) j
+      | none => false
+    | _, _ => false
+  | _ => false
+
+def isWrittenNamed (j : JVal) : Bool :=
+  match j with
+  | .obj [("name", .str n)] => jeq (writeNamedCal n) j
+  | _ => false
+
+def isWrittenSpline (coeff : JVal → Bool) (j : JVal) : Bool :=
+  match j with
+  | .obj [("inner", .obj [("k", .num k), ("t", .arr ts), ("c", cj), ("n", .num n)])] =>
+    let c : Option (Option (List JVal)) := match cj with
+      | .null => some none
+      | .obj [_, _, ("data", .arr items)] => if items.all coeff then some (some items) else none
+      | _ => none
+    match ts.mapM asF64, c with
+    | some t, some c => k.isInt && !k.neg && n.isInt && !n.neg && jeq (writeSplineG k.mant t c n.mant) j
+    | _, _ => false
+  | _ => false
+
+def isNum : JVal → Bool
+  | .num _ => true
+  | _ => false
+
+def isWrittenCurve (j : JVal) : Bool :=
+  match j with
+  | .obj [("inner", .obj [("nodes", nodesDoc), ("interpolator", .obj [(interp, _)]),
+          ("id", .str id), ("convention", .str conv), ("modifier", .str modi), ("index_base", ib),
+          ("calendar", calDoc)])] =>
+    let nodesOk := match nodesDoc with
+      | .obj [("F64", .obj kvs)] => kvs.all (fun kv => isNum kv.2)
+      | .obj [("Dual", .obj kvs)] => kvs.all (fun kv => isWrittenDual kv.2)
+      | .obj [("Dual2", .obj kvs)] => kvs.all (fun kv => isWrittenDual2 kv.2)
+      | _ => false
+    let calOk := match calDoc with
+      | .obj [("NamedCal", c)] => isWrittenNamed c
+      | .obj [("Cal", c)] => isWrittenCal c
+      | .obj [("UnionCal", c)] => isWrittenUnion c
+      | _ => false
+    let base : Option (Option JNum) := match ib with
+      | .num b => some (some b)
+      | .null => some none
+      | _ => none
+    match base with
+    | some b => nodesOk && calOk && jeq (writeCurveG nodesDoc calDoc interp id conv modi b) j
+    | none => false
+  | _ => false
+
+def isWrittenFX (j : JVal) : Bool :=
+  match j with
+  | .obj [("fx_rates", .arr qs), ("currencies", .arr cs)] =>
+    let numDoc : JVal → Option NumDoc
+      | .obj [("F64", .num x)] => some (.f64 x)
+      | .obj [("Dual", .obj [("real", .num re), ("vars", .arr vs), ("dual", .obj [_, _, ("data", .arr xs)])])] =>
+        match vs.mapM asStr, xs.mapM asF64 with
+        | some names, some d => some (.dual re names d)
+        | _, _ => none
+      | .obj [("Dual2", .obj [("real", .num re), ("vars", .arr vs), ("dual", .obj [_, _, ("data", .arr xs)]),
+              ("dual2", .obj [_, _, ("data", .arr hs)])])] =>
+        match vs.mapM asStr, xs.mapM asF64, hs.mapM asF64 with
+        | some names, some d, some h => some (.dual2 re names d h)
+        | _, _, _ => none
+      | _ => none
+    let quote : JVal → Option WQuote
+      | .obj [("pair", .arr [.obj [("name", .str a)], .obj [("name", .str b)]]), ("rate", rj), ("settlement", sj)] =>
+        match numDoc rj, sj with
+        | some r, .null => some ⟨a, b, r, none⟩
+        | some r, .str s => (parseDateTime s).map (fun d => ⟨a, b, r, some (s, d)⟩)
+        | _, _ => none
+      | _ => none
+    let ccy : JVal → Option String
+      | .obj [("name", .str c)] => some c
+      | _ => none
+    match qs.mapM quote, cs.mapM ccy with
+    | some qs', some cs' => jeq (writeFXRates qs' cs') j
+    | _, _ => false
+  | _ => false
+
 def writtenForm (j : JVal) : Option String :=
   match j with
-  | .obj [("Dual", inner)] =>
-    match inner with
-    | .obj [("real", .num re), ("vars", .arr vs), ("dual", .obj [_, _, ("data", .arr xs)])] =>
-      match vs.mapM asStr, xs.mapM asF64 with
-      | some names, some d => if jeq (writeDual re names d) inner then some "Dual" else none
-      | _, _ => none
-    | _ => none
-  | .obj [("Dual2", inner)] =>
-    match inner with
-    | .obj [("real", .num re), ("vars", .arr vs), ("dual", .obj [_, _, ("data", .arr xs)]),
-            ("dual2", .obj [_, _, ("data", .arr hs)])] =>
-      match vs.mapM asStr, xs.mapM asF64, hs.mapM asF64 with
-      | some names, some d, some h => if jeq (writeDual2 re names d h) inner then some "Dual2" else none
-      | _, _, _ => none
-    | _ => none
-  | .obj [("Curve", inner)] =>
-    match inner with
-    | .obj [("inner", .obj [("nodes", .obj [("F64", .obj kvs)]), ("interpolator", .obj [(interp, _)]),
-            ("id", .str id), ("convention", .str conv), ("modifier", .str modi), ("index_base", ib),
-            ("calendar", .obj [("NamedCal", .obj [("name", .str cal)])])])] =>
-      match kvs.mapM (fun kv => asF64 kv.2), (match ib with | .num b => some (some b) | .null => some none | _ => none) with
-      | some vals, some base =>
-        if jeq (writeCurveF64 (kvs.map (·.1)) vals interp id conv modi base cal) inner then some "Curve" else none
-      | _, _ => none
-    | _ => none
-  | .obj [("PPSplineF64", inner)] =>
-    match inner with
-    | .obj [("inner", .obj [("k", .num k), ("t", .arr ts), ("c", cj), ("n", .num n)])] =>
-      let c : Option (Option (List JNum)) := match cj with
-        | .null => some none
-        | .obj [_, _, ("data", .arr xs)] => (xs.mapM asF64).map some
-        | _ => none
-      match ts.mapM asF64, c with
-      | some t, some c =>
-        if k.isInt && !k.neg && n.isInt && !n.neg && jeq (writeSplineF64 k.mant t c n.mant) inner
-        then some "PPSplineF64" else none
-      | _, _ => none
-    | _ => none
-  | .obj [("FXRates", inner)] =>
-    match inner with
-    | .obj [("fx_rates", .arr qs), ("currencies", .arr cs)] =>
-      let quote : JVal → Option WQuote
-        | .obj [("pair", .arr [.obj [("name", .str a)], .obj [("name", .str b)]]),
-                ("rate", .obj [("F64", .num r)]), ("settlement", sj)] =>
-          match sj with
-          | .null => some ⟨a, b, r, none⟩
-          | .str s => (parseDateTime s).map (fun d => ⟨a, b, r, some (s, d)⟩)
-          | _ => none
-        | _ => none
-      let ccy : JVal → Option String
-        | .obj [("name", .str c)] => some c
-        | _ => none
-      match qs.mapM quote, cs.mapM ccy with
-      | some qs', some cs' => if jeq (writeFXRates qs' cs') inner then some "FXRates" else none
-      | _, _ => none
-    | _ => none
+  | .obj [(tag, inner)] =>
+    let ok := match tag with
+      | "Dual" => isWrittenDual inner
+      | "Dual2" => isWrittenDual2 inner
+      | "Cal" => isWrittenCal inner
+      | "UnionCal" => isWrittenUnion inner
+      | "NamedCal" => isWrittenNamed inner
+      | "Curve" => isWrittenCurve inner
+      | "FXRates" => isWrittenFX inner
+      | "PPSplineF64" => isWrittenSpline isNum inner
+      | "PPSplineDual" => isWrittenSpline isWrittenDual inner
+      | "PPSplineDual2" => isWrittenSpline isWrittenDual2 inner
+      | _ => false
+    if ok then some tag else none
   | _ => none
 
 /-- `<n> item*n` prefix of a token list -/
